@@ -179,6 +179,12 @@ def _ends_in_return(stmts: List[ast.stmt]) -> bool:
     return False
 
 
+def _root(e: ast.AST) -> ast.AST:
+    while isinstance(e, (ast.Attribute, ast.Subscript)):
+        e = e.value
+    return e
+
+
 def _is_literal(v: ast.AST) -> bool:
     if isinstance(v, ast.Constant) and isinstance(v.value, (str, int, float, complex)) and not isinstance(v.value, bool):
         return True
@@ -529,8 +535,50 @@ class Inliner:
             if not fi.module.relpath.startswith("examples/"):
                 self._match_to_if(fi)
                 self._unwalrus(fi)
+                self._object_aliases(fi)
                 self._module_constants(fi)
                 self._level_aliases(fi)
+
+    OBJECT_ATTRS = {"fock", "polarization", "envelope", "composite_envelope", "container"}
+
+    def _object_aliases(self, fi) -> None:
+        """`fock = self.fock` / `target = states[0]` name an *object* that the function never rebinds: the local is read as the
+        expression it abbreviates (value snapshots such as `dims = self.dimensions` are not touched – they may go stale)"""
+        fn = fi.node
+        a = fn.args
+        params = {p.arg for p in a.posonlyargs + a.args + a.kwonlyargs}
+        vararg = a.vararg.arg if a.vararg else None
+        stores: Dict[str, int] = {}
+        for x in ast.walk(fn):
+            if isinstance(x, ast.Name) and isinstance(x.ctx, (ast.Store, ast.Del)):
+                stores[x.id] = stores.get(x.id, 0) + 1
+        attr_stores = {x.attr for x in ast.walk(fn) if isinstance(x, ast.Attribute) and isinstance(x.ctx, ast.Store)}
+        cands: Dict[str, ast.AST] = {}
+        for x in ast.walk(fn):
+            if isinstance(x, ast.Assign) and len(x.targets) == 1 and isinstance(x.targets[0], ast.Name) and stores.get(x.targets[0].id) == 1 and x.targets[0].id not in params:
+                v = x.value
+                if isinstance(v, ast.Attribute) and v.attr in self.OBJECT_ATTRS and _is_simple(v) and v.attr not in attr_stores \
+                        and isinstance(_root(v), ast.Name) and (_root(v).id in params or _root(v).id == "self"):
+                    cands[x.targets[0].id] = v
+                elif vararg and isinstance(v, ast.Subscript) and isinstance(v.value, ast.Name) and v.value.id == vararg and isinstance(v.slice, ast.Constant) and isinstance(v.slice.value, int):
+                    cands[x.targets[0].id] = v
+        if not cands:
+            return
+        new = copy.deepcopy(fn) if fn is getattr(fi, "orig", None) else fn
+
+        class _A(ast.NodeTransformer):
+            def visit_Name(self, n):
+                if isinstance(n.ctx, ast.Load) and n.id in cands:
+                    return ast.copy_location(copy.deepcopy(cands[n.id]), n)
+                return n
+
+            def visit_FunctionDef(self, n):
+                if n is new:
+                    self.generic_visit(n)
+                return n
+        _A().visit(new)
+        ast.fix_missing_locations(new)
+        fi.node = new
 
     def _match_to_if(self, fi) -> None:
         """`match len(xs): case 0: … case 1: … case _: …` over a count or a plain local is read as the if/elif/else chain it abbreviates
